@@ -44,6 +44,15 @@ pub fn shards(tier: &str) -> Vec<String> {
         for o in model::perms(3) {
             v.push(format!("{k}:chain:{}:t1", model::order_str(&o)));
         }
+        // sparse live sets (empty levels between / around the non-empty ones)
+        for (i, o) in p4.iter().enumerate() {
+            if tier == "thorough" || i % 2 == 0 {
+                v.push(format!("{k}:sparse4:{}:t1", model::order_str(o)));
+            }
+        }
+        for o in ["01234", "43210", "20413", "31402"] {
+            v.push(format!("{k}:sparse5:{o}:t1"));
+        }
     }
     v
 }
@@ -264,6 +273,40 @@ fn run_k<K: BoolKind>(ctx: &mut Ctx, part: &str, src: &str, tc: &str) {
             }
         }
         "chain" => chains::<K>(ctx, &src, tc),
+        "sparse4" | "sparse5" => {
+            // live sets whose support is a strict subset of the variables: 1 or 2 functions over
+            // 2 of the n variables, so that 2..3 levels are empty; every total target order (n=4)
+            // resp. every rotation/reversal/adjacent transposition family (n=5) and all partial
+            // requests of length 2..3
+            let n = if part == "sparse4" { 4u32 } else { 5 };
+            let xv: Vec<Tab> = (0..n).map(|v| model::var_tab(v, n)).collect();
+            let full = model::full(n);
+            let mut live_sets: Vec<Vec<Tab>> = vec![];
+            for i in 0..n as usize {
+                for j in (i + 1)..n as usize {
+                    live_sets.push(vec![xv[i] & xv[j]]);
+                    live_sets.push(vec![xv[i] ^ xv[j], (xv[i] | !xv[j]) & full]);
+                }
+            }
+            let reqs: Vec<Vec<u32>> = if n == 4 {
+                let mut r = model::perms(4);
+                r.extend(requests(4).into_iter().filter(|q| q.len() == 2 || q.len() == 3));
+                r
+            } else {
+                let mut r: Vec<Vec<u32>> = vec![];
+                for p in model::perms(5).into_iter().step_by(7) {
+                    r.push(p);
+                }
+                r.push(vec![4, 3, 2, 1, 0]);
+                r.extend(requests(5).into_iter().filter(|q| q.len() == 2).step_by(3));
+                r
+            };
+            for ls in &live_sets {
+                for req in &reqs {
+                    reorder_case::<K>(ctx, n, &src, req, ls, tc);
+                }
+            }
+        }
         _ => panic!("bad part"),
     }
 }
